@@ -332,3 +332,48 @@ Proof.
   - exfalso. apply run_sound in E1.
     assert (Raised = Normal) by (eapply rf_normal; eauto; apply Hw). discriminate.
 Qed.
+
+(* ------------------------------------------------------------------ deliveries are counted per broadcast event, not per message identity *)
+(* [Broadcast i c] twice - the same identity (in the implementation possibly the very same object) - inside one delay block:
+   both stay in the queue and each gets its own delivery round when the block closes. *)
+
+Theorem same_message_twice_delivered_twice : forall fuel w s i c st s' lg,
+  handlers_rf w -> wf_subs (subs s) ->
+  paused s = 0 -> queue s = [] -> ignored s (i, c) = false ->
+  run fuel w s (TAct (Delay [Broadcast i c; Broadcast i c])) = Some (st, s', lg) ->
+  bcasts [Broadcast i c; Broadcast i c] = [(i, c); (i, c)] /\
+  fst (queued (ign s) [Broadcast i c; Broadcast i c]) = [(i, c); (i, c)] /\
+  exists s1,
+    top 0 lg = to_calls (i, c) (find_handlers w (subs s) (i, c)) ++
+               to_calls (i, c) (find_handlers w (subs s1) (i, c)).
+Proof.
+  intros fuel w s i c st s' lg Hw Hs Hp Hq Hi H.
+  assert (Hig : ignoredl (ign s) c = false) by exact Hi.
+  assert (Eq : queued (ign s) [Broadcast i c; Broadcast i c] = ([(i, c); (i, c)], false)).
+  { unfold queued. simpl. rewrite Hig. reflexivity. }
+  split; [reflexivity|]. split; [rewrite Eq; reflexivity|].
+  destruct (delay_holds_everything _ _ _ _ _ _ _ Hw Hs Hp Hq H)
+    as [n [s1 [lbody [lflush [Hb [Hlg [Hnd [Hqueue [Hfl _]]]]]]]]].
+  rewrite Eq in Hfl. simpl in Hfl.
+  inversion Hfl as [|? ? ? ? sA lA ? lrest HrA HtA HbA Hrest]; subst.
+  inversion Hrest as [|? ? ? ? sB lB ? lrest2 HrB HtB HbB Hrest2]; subst.
+  inversion Hrest2; subst.
+  exists sA.
+  rewrite Eq in Hb. simpl in Hb.
+  assert (Hsub : subs (set_queue (set_paused s1 0) []) = subs s).
+  { simpl. apply run_sound in Hb. clear -Hb.
+    assert (B1 : forall x st0 x' l0, Eval w x (TBcast (i, c)) st0 x' l0 -> paused x <> 0 -> subs x' = subs x /\ paused x' = paused x).
+    { intros x st0 x' l0 HE Hx. inversion HE; subst; simpl; auto. contradiction. }
+    assert (A1 : forall x st0 x' l0, Eval w x (TAct (Broadcast i c)) st0 x' l0 -> paused x <> 0 -> subs x' = subs x /\ paused x' = paused x).
+    { intros x st0 x' l0 HE Hx. inversion HE; subst. eapply B1; eauto. }
+    inversion Hb; subst.
+    match goal with HH : Eval _ (set_paused s 1) (TAct _) _ _ _ |- _ => apply A1 in HH; [|simpl; lia]; simpl in HH; destruct HH as [S1 P1] end.
+    match goal with HH : Eval _ _ (TScript [_]) _ _ _ |- _ => inversion HH; subst end.
+    match goal with HH : Eval _ _ (TScript []) _ _ _ |- _ => inversion HH; subst end.
+    match goal with HH : Eval _ _ (TAct _) Normal s1 _ |- _ => apply A1 in HH; [|lia]; destruct HH; congruence end. }
+  rewrite Hsub in *.
+  simpl. rewrite top_marks by exact Hnd. simpl.
+  rewrite app_nil_r. rewrite <- app_assoc.
+  rewrite top_bal_0 by assumption. rewrite top_bal_0 by assumption.
+  rewrite HtA, HtB. simpl. rewrite app_nil_r. reflexivity.
+Qed.
